@@ -158,7 +158,7 @@ class FlowFields(ImageBatch):
             torch.tensor_split,
             Tensor.tensor_split,
         ):
-            return tuple(cls._torch_function_result(func, res, grid, axes) for res in data)
+            return tuple(cls._torch_function_result(func, d, g, axes) for d, g in zip(data, grid))
         return cls._torch_function_result(func, data, grid, axes)
 
     @overload
